@@ -77,6 +77,15 @@ def cases(tier, seed):
         for t in cm.k2_subset():
             if 'XOR' not in sh.tree_ops(t):
                 yield ('K', cm.on_carrier([t]))
+    from . import families
+    for m in families.models():
+        if in_fragment(m):
+            yield ('S', m)
+    for m in rt.collision_models():
+        yield ('D', m)
+    for t in families.deep_trees():
+        if 'XOR' not in sh.tree_ops(t):
+            yield ('K', cm.on_carrier([t]))
     k1 = [t for t in cm.k1() if 'XOR' not in sh.tree_ops(t)]
     step = 5 if tier == 'quick' else 2
     for t1 in k1[::step]:
